@@ -742,6 +742,10 @@ impl FixtureDatabase {
                 // Found the pattern — check if cursor is inside the unclosed call
                 // Count parens from the usefixtures( position to the cursor
                 let mut depth: i32 = 0;
+                // Set once the usefixtures( call itself has been closed: parentheses opened
+                // after that point (e.g. the signature being typed below a complete
+                // `@pytest.mark.usefixtures("db")` decorator) do not belong to it.
+                let mut call_closed = false;
 
                 // Count from the opening paren on this line
                 for ch in line[pos..].chars() {
@@ -750,27 +754,43 @@ impl FixtureDatabase {
                     }
                     if ch == ')' {
                         depth -= 1;
+                        if depth == 0 {
+                            call_closed = true;
+                            break;
+                        }
                     }
                 }
 
                 // Continue counting on subsequent lines up to cursor.
                 // Skip when i == cursor_idx since (i + 1)..=cursor_idx would panic.
-                if i < cursor_idx {
-                    for line in &lines[(i + 1)..=cursor_idx] {
+                if i < cursor_idx && !call_closed {
+                    'outer: for line in &lines[(i + 1)..=cursor_idx] {
                         for ch in line.chars() {
                             if ch == '(' {
                                 depth += 1;
                             }
                             if ch == ')' {
                                 depth -= 1;
+                                if depth == 0 {
+                                    call_closed = true;
+                                    break 'outer;
+                                }
                             }
                         }
                     }
                 }
 
                 // If depth > 0, we're inside the unclosed usefixtures call
-                if depth > 0 {
+                if depth > 0 && !call_closed {
                     return Some(CompletionContext::UsefixturesDecorator);
+                }
+                if call_closed && i < cursor_idx {
+                    // a complete call on an earlier line: keep looking at the lines above it
+                    if i == 0 || i <= scan_limit {
+                        break;
+                    }
+                    i -= 1;
+                    continue;
                 }
 
                 // depth == 0 and cursor is on the same line as the opening —
